@@ -21,6 +21,10 @@
 //       (every subset): only callers whose certificate is pinned in that configuration are served, under their own identity;
 //       callers without certificate or with any other certificate are refused (401 or TLS handshake), the request handler is
 //       not invoked and no record stream is created.
+//   (e) `verif_c20_incomplete_tls_config`: servers of both kinds (both start modes) whose configuration does not disable HTTPS
+//       but carries no or incomplete TLS material (`tls: None`, certificate without key, key without certificate, empty, files
+//       that do not exist): either the server refuses to start, or it refuses every caller that is not authenticated by a client
+//       certificate (plain HTTP and TLS callers, with and without identity headers naming every helper / shard).
 // A request handler installed in the servers records every request that gets past the HTTP layer: a protected route
 // whose handler is reached without a verified identity is a violation whatever the status code.
 // IO errors / timeouts are inconclusive, never violations.
@@ -1633,9 +1637,12 @@ mod live {
         case: usize,
         srv: Srv,
         tls: bool,
+        /// which of the world's transports (request-handler log, record streams) the server under test sits on: the one of
+        /// the TLS `TestServer` (true) or of the plain one (false)
+        transport_tls: bool,
         port: u16,
         start: Start,
-        /// "pinned" or "unpinned:<peers without a certificate>"
+        /// "pinned", "unpinned:<peers without a certificate>" or "tls-<what is missing>"
         config: &'a str,
         rc: &'a RouteCase,
         reference: &'a Outcome,
@@ -1682,7 +1689,7 @@ mod live {
             (format!("{}{QUERY_WELL_FORMED}", instantiate(tp, "0", "0", GATES[0]).replace("{U}", &format!("-u{u}"))), body_bytes(1, p.rc.method), None)
         };
         let headers: Vec<(&str, &str)> = p.hdr.iter().map(|(_, n, v)| (*n, *v)).collect();
-        let log = &w.logs[&(p.srv, p.tls)];
+        let log = &w.logs[&(p.srv, p.transport_tls)];
         let before = log.lock().unwrap().len();
         let out = pool.send(p.port, p.tls, p.who, p.wire, p.rc.method, &pq, &body, &headers).await;
         let reached = log.lock().unwrap()[before..].to_vec();
@@ -1714,7 +1721,7 @@ mod live {
             let sampled = env.thorough || vlib::fxhash(&(p.case, hdr_class, p.hdr.map(|h| h.2))) % 4 == 0;
             if st != 401 || sampled {
                 let wait = if accepted_2xx { Duration::from_secs(15) } else { Duration::from_millis(150) };
-                filed = Some(filed_under(w, p.srv, p.tls, gate, &body.0, wait).await);
+                filed = Some(filed_under(w, p.srv, p.transport_tls, gate, &body.0, wait).await);
             }
         }
 
@@ -1935,7 +1942,7 @@ mod live {
                             _ => Expect::Refuse { tls_failure_ok: false },
                         }
                     };
-                    let p = P { test: TEST, case: c.idx, srv, tls: c.tls, port: w.port(srv, c.tls), start, config: "pinned", rc, reference: &r, who, client: &client, client_kind,
+                    let p = P { test: TEST, case: c.idx, srv, tls: c.tls, transport_tls: c.tls, port: w.port(srv, c.tls), start, config: "pinned", rc, reference: &r, who, client: &client, client_kind,
                         wire: c.wire, hdr: h, expect };
                     let o = probe(&w, &mut pool, &mut rec, &s.env, &mut io_errors, &p, baseline.as_ref()).await;
                     if h.is_none() {
@@ -2138,7 +2145,7 @@ mod live {
                 }
                 let mut baseline: Option<Outcome> = None;
                 for h in hv {
-                    let p = P { test: TEST, case: c.idx, srv, tls: true, port: *port, start: c.start, config: &config, rc, reference: &r, who, client: &client, client_kind,
+                    let p = P { test: TEST, case: c.idx, srv, tls: true, transport_tls: true, port: *port, start: c.start, config: &config, rc, reference: &r, who, client: &client, client_kind,
                         wire: c.wire, hdr: h, expect: expect.clone() };
                     let o = probe(&w, &mut pool, &mut rec, &s.env, &mut io_errors, &p, baseline.as_ref()).await;
                     if o.status.is_some() {
@@ -2155,6 +2162,252 @@ mod live {
             rec.add("raw_connections_opened", pool.connects);
             rec.add("raw_connections_reopened", pool.reconnects);
         });
+        rec.finish();
+    }
+
+    // -----------------------------------------------------------------------------------------
+    // (e) HTTPS not disabled, TLS material missing or incomplete
+    // -----------------------------------------------------------------------------------------
+
+    use crate::config::{ServerConfig, TlsConfig};
+
+    /// Server configurations with `disable_https: false` whose TLS material is missing or incomplete. Derived from the
+    /// repository's own (complete, inline) test configuration.
+    const INCOMPLETE_TLS: &[&str] = &[
+        "tls-none",
+        "tls-inline-cert-without-key",
+        "tls-inline-key-without-cert",
+        "tls-inline-empty",
+        "tls-file-missing",
+        "tls-file-cert-without-key",
+        "tls-file-key-without-cert",
+    ];
+
+    fn incomplete_tls_dir() -> std::path::PathBuf {
+        std::env::temp_dir().join(format!("verif-c20-incomplete-tls-{}", std::process::id()))
+    }
+
+    fn incomplete_tls(config: &str, complete: &ServerConfig) -> Option<TlsConfig> {
+        let Some(TlsConfig::Inline { certificate, private_key }) = complete.tls.clone() else {
+            panic!("the repository's test server configuration carries no inline TLS material");
+        };
+        assert!(certificate.contains("BEGIN CERTIFICATE") && private_key.contains("PRIVATE KEY"));
+        let dir = incomplete_tls_dir();
+        let file = |name: &str, content: Option<&str>| {
+            let path = dir.join(name);
+            if let Some(c) = content {
+                std::fs::create_dir_all(&dir).unwrap();
+                std::fs::write(&path, c).unwrap();
+            } else {
+                assert!(!path.exists());
+            }
+            path
+        };
+        match config {
+            "tls-none" => None,
+            "tls-inline-cert-without-key" => Some(TlsConfig::Inline { certificate, private_key: String::new() }),
+            "tls-inline-key-without-cert" => Some(TlsConfig::Inline { certificate: String::new(), private_key }),
+            "tls-inline-empty" => Some(TlsConfig::Inline { certificate: String::new(), private_key: String::new() }),
+            "tls-file-missing" => Some(TlsConfig::File { certificate_file: file("absent-cert.pem", None), private_key_file: file("absent-key.pem", None) }),
+            "tls-file-cert-without-key" => Some(TlsConfig::File { certificate_file: file("cert.pem", Some(&certificate)), private_key_file: file("absent-key.pem", None) }),
+            "tls-file-key-without-cert" => Some(TlsConfig::File { certificate_file: file("absent-cert.pem", None), private_key_file: file("key.pem", Some(&private_key)) }),
+            other => panic!("unknown incomplete TLS configuration {other}"),
+        }
+    }
+
+    /// A further server on the transport (request handler, record streams) of the world's TLS `TestServer`, built from the
+    /// repository's own test configuration (fully pinned peers, HTTPS *not* disabled) in which the server's own TLS
+    /// material is replaced by `config`. `Err` = `start_on` panicked (message).
+    async fn start_incomplete(w: &World, srv: Srv, config: &str, start: Start) -> Result<(u16, Keep), String> {
+        let rt = IpaRuntime::current();
+        match srv {
+            Srv::Mpc => {
+                let mut tc = TestConfig::builder().build();
+                let ring = tc.rings.remove(0);
+                let net = ring.network.clone();
+                let first = ring.servers.into_iter().next().unwrap();
+                let mut cfg = first.config.clone();
+                assert!(!cfg.disable_https);
+                cfg.tls = incomplete_tls(config, &cfg);
+                let listener = match start {
+                    Start::PreBound => first.socket,
+                    Start::SelfBound => {
+                        cfg.port = None;
+                        None
+                    }
+                };
+                assert!(!cfg.disable_https);
+                let server = IpaHttpServer::new_mpc(Arc::clone(&w.mpc_tls.transport), cfg, net);
+                let r = vlib::catch_fut(server.start_on(&rt, listener, ())).await;
+                r.map(|(addr, _join)| (addr.port(), Keep::_H(server)))
+            }
+            Srv::Shard => {
+                let tc = TestConfig::builder().with_shard_count(2).build();
+                let [tn, ..] = tc.shards;
+                let net = tn.network.clone();
+                let first = tn.servers.into_iter().next().unwrap();
+                let mut cfg = first.config.clone();
+                assert!(!cfg.disable_https);
+                cfg.tls = incomplete_tls(config, &cfg);
+                let listener = match start {
+                    Start::PreBound => first.socket,
+                    Start::SelfBound => {
+                        cfg.port = None;
+                        None
+                    }
+                };
+                assert!(!cfg.disable_https);
+                let server = IpaHttpServer::new_shards(Arc::clone(&w.shard_tls.transport), cfg, net);
+                let r = vlib::catch_fut(server.start_on(&rt, listener, ())).await;
+                r.map(|(addr, _join)| (addr.port(), Keep::_S(server)))
+            }
+        }
+    }
+
+    struct Started {
+        port: u16,
+        _keep: Keep,
+        speaks_plain: bool,
+        speaks_tls: bool,
+    }
+
+    #[test]
+    fn verif_c20_incomplete_tls_config() {
+        const TEST: &str = "incomplete_tls";
+        let mut rec = Recorder::new("C20", "verif_c20_incomplete_tls_config");
+        let Some(s) = setup(&mut rec) else { return rec.finish() };
+        // protected routes, plus the echo route as a witness that report-collector routes stay reachable
+        let routes: Vec<RouteCase> = route_cases(&s.inv).into_iter().filter(|r| !r.allow || r.tmpl.full == "/echo").collect();
+        /// how the caller connects: 0 = plain HTTP, 1 = TLS without client certificate, 2 = TLS with a certificate that is in
+        /// nobody's configuration
+        const CLIENTS: usize = 3;
+        struct IC {
+            idx: usize,
+            srv: Srv,
+            config: &'static str,
+            start: Start,
+            ri: usize,
+            client: usize,
+            wire: Wire,
+        }
+        let mut cases: Vec<IC> = Vec::new();
+        for srv in [Srv::Mpc, Srv::Shard] {
+            for config in INCOMPLETE_TLS {
+                for start in Start::ALL {
+                    for (ri, rc) in routes.iter().enumerate() {
+                        if rc.tmpl.srv != srv {
+                            continue;
+                        }
+                        for client in 0..CLIENTS {
+                            let wires: &[Wire] = match (s.env.thorough, client) {
+                                (true, _) => &Wire::ALL,
+                                (false, 0) => &[Wire::H1Origin, Wire::H2Http],
+                                (false, _) => &[Wire::H1Origin, Wire::H2Https],
+                            };
+                            for wire in wires {
+                                cases.push(IC { idx: cases.len(), srv, config, start, ri, client, wire: *wire });
+                            }
+                        }
+                    }
+                }
+            }
+        }
+        run(async {
+            let w = World::new(Start::PreBound).await;
+            let mut pool = RawPool::default();
+            let mut refs = BTreeMap::new();
+            let mut io_errors = 0u64;
+            let mut servers: BTreeMap<(Srv, &'static str, Start), Option<Started>> = BTreeMap::new();
+            let wanted = starts();
+            for c in &cases {
+                if !s.env.mine(c.idx) || s.only.is_some_and(|o| o != c.idx) || !wanted.contains(&c.start) {
+                    continue;
+                }
+                let srv = c.srv;
+                let key = format!("{}/{}/{}", srv.name(), c.config, c.start.name());
+                if !servers.contains_key(&(srv, c.config, c.start)) {
+                    rec.seen("incomplete_tls_configs", key.clone());
+                    let started = match start_incomplete(&w, srv, c.config, c.start).await {
+                        Ok((port, keep)) => {
+                            // which protocol does the listener speak? (any answer on the echo route counts)
+                            let none = (Vec::new(), None);
+                            let plain = pool.send(port, false, Who::Anonymous, Wire::H1Origin, "GET", "/echo?foo=1", &none, &[]).await;
+                            let tls = pool.send(port, true, Who::Anonymous, Wire::H1Origin, "GET", "/echo?foo=1", &none, &[]).await;
+                            let (sp, st) = (plain.status.is_some(), tls.status.is_some());
+                            let speaks = match (sp, st) {
+                                (true, true) => "http+https",
+                                (true, false) => "http",
+                                (false, true) => "https",
+                                (false, false) => "unreachable",
+                            };
+                            rec.seen("incomplete_tls_configs_started", format!("{key}: {speaks}"));
+                            if !sp && !st {
+                                // listening, but nobody gets an answer (e.g. TLS without a usable certificate): nothing is exposed
+                                rec.seen("incomplete_tls_configs_decided", key.clone());
+                                rec.note(format!("server with configuration {key} started but answers neither plain HTTP ({:?}) nor TLS ({:?})", plain.err, tls.err));
+                            }
+                            Some(Started { port, _keep: keep, speaks_plain: sp, speaks_tls: st })
+                        }
+                        Err(msg) => {
+                            // A server that refuses to start is a loud rejection of the configuration: nothing is exposed.
+                            rec.seen("incomplete_tls_configs_refused_at_startup", format!("{key}: {}", msg.chars().take(120).collect::<String>()));
+                            rec.seen("incomplete_tls_configs_decided", key.clone());
+                            None
+                        }
+                    };
+                    servers.insert((srv, c.config, c.start), started);
+                }
+                let Some(sv) = &servers[&(srv, c.config, c.start)] else {
+                    rec.eval();
+                    rec.count("incomplete_tls_refused_at_startup");
+                    rec.distinct(&(TEST, srv, c.config, c.start, "refused-at-startup", c.idx));
+                    continue;
+                };
+                let tls = c.client != 0;
+                if (tls && !sv.speaks_tls) || (!tls && !sv.speaks_plain) {
+                    rec.count("incomplete_tls_cases_protocol_not_spoken");
+                    continue;
+                }
+                let rc = &routes[c.ri];
+                let Some(r) = route_reference(&w, &mut rec, &mut refs, c.ri, rc).await else { continue };
+                rec.seen("routes", format!("{} {}", srv.name(), rc.tmpl.full));
+                let (who, client, client_kind, expect): (Who, &str, &'static str, Expect) = match c.client {
+                    0 | 1 => (Who::Anonymous, "anonymous", "anonymous", Expect::Refuse { tls_failure_ok: false }),
+                    _ => (Who::Cert(if srv == Srv::Mpc { FOREIGN_FOR_MPC } else { 2 }), "cert:foreign", "cert:foreign", Expect::Refuse { tls_failure_ok: true }),
+                };
+                // header variants: none (baseline), the identity header naming every helper / shard, then malformed and the other
+                // flavour's header (quick: one of the two, rotating)
+                let hdr = id_header(srv);
+                let other = (id_header(if srv == Srv::Mpc { Srv::Shard } else { Srv::Mpc }), if srv == Srv::Mpc { "0" } else { "A" });
+                let mut hv: Vec<Option<(Hdr, &'static str, &str)>> = vec![None];
+                hv.extend(spoof_values(srv).iter().map(|v| Some((Hdr::Peer, hdr, *v))));
+                if s.env.thorough || c.idx % 2 == 0 {
+                    hv.push(Some((Hdr::Malformed, hdr, ["H1", "", "-1", "AA"][c.idx % 4])));
+                }
+                if s.env.thorough || c.idx % 2 == 1 {
+                    hv.push(Some((Hdr::OtherFlavour, other.0, other.1)));
+                }
+                let mut baseline: Option<Outcome> = None;
+                for h in hv {
+                    let p = P { test: TEST, case: c.idx, srv, tls, transport_tls: true, port: sv.port, start: c.start, config: c.config, rc, reference: &r, who, client, client_kind,
+                        wire: c.wire, hdr: h, expect: expect.clone() };
+                    let o = probe(&w, &mut pool, &mut rec, &s.env, &mut io_errors, &p, baseline.as_ref()).await;
+                    if o.status.is_some() || (o.err.is_some() && c.client == 2) {
+                        rec.seen("incomplete_tls_configs_decided", key.clone());
+                        rec.count("incomplete_tls_probes_judged");
+                    }
+                    if h.is_none() {
+                        baseline = Some(o);
+                    }
+                }
+                if io_errors > 20 {
+                    break;
+                }
+            }
+            rec.add("raw_connections_opened", pool.connects);
+            rec.add("raw_connections_reopened", pool.reconnects);
+        });
+        let _ = std::fs::remove_dir_all(incomplete_tls_dir());
         rec.finish();
     }
 }
